@@ -93,7 +93,8 @@ DoPublicAdd == \E x \in Decls : Step("PublicAdd", x)
 DoGetOrAdd  == \E x \in Decls : Step("GetOrAdd", x)
 DoRemoveAll == \E x \in Decls : Step("RemoveAll", x)
 DoChangeTo  == \E x \in Decls : Step("ChangeTo", x)
-Next == DoInsert \/ DoAdd \/ DoPublicAdd \/ DoGetOrAdd \/ DoRemoveAll \/ DoChangeTo
+DoHand      == \E x \in Decls : Step("Hand", x)
+Next == DoInsert \/ DoAdd \/ DoPublicAdd \/ DoGetOrAdd \/ DoRemoveAll \/ DoChangeTo \/ DoHand
 Spec == Init /\ [][Next]_<<st, depth>>
 ViewSt == st
 
